@@ -632,6 +632,7 @@ func (g *gen) stmtLoop(d int) {
 				g.line("%sPrintln(\"%s\")", fmtMark, g.tag())
 			}
 			g.raw(label + ":")
+			g.skipCmt = true
 		}
 	}
 	// pre is run at the top of the body of a labeled loop: plants the inner loop that uses the label
